@@ -986,4 +986,36 @@ theorem cgForward_trichotomy_model (n : Nat) (tol : ℝ) (maxiter : Option Nat) 
     push Not at hb
     exact ⟨hb, (cgForward_zero n tol maxiter A b x0 M hb).1⟩
 
+/-! ## the effective-rank threshold of `lstsq` (SVD drivers) -/
+
+/-- the `rcond` defaulting of `torch.linalg.lstsq` with an SVD driver, case by case -/
+theorem lstsqCutoff_cases (m n : Nat) (eps mach s1 r : ℝ) :
+    lstsqCutoff none m n eps mach s1 = (max m n : ℕ) * eps * s1 ∧
+    (r < 0 → lstsqCutoff (some r) m n eps mach s1 = mach * s1) ∧
+    (0 ≤ r → lstsqCutoff (some r) m n eps mach s1 = r * s1) := by
+  refine ⟨?_, ?_, ?_⟩
+  · unfold lstsqCutoff; simp
+  · intro h; unfold lstsqCutoff; simp [h]
+  · intro h; unfold lstsqCutoff; simp [not_lt.mpr h]
+
+theorem lstsqCutoff_nonneg (rcond : Option ℝ) (m n : Nat) (eps mach s1 : ℝ) (he : 0 ≤ eps) (hm : 0 ≤ mach)
+    (hs : 0 ≤ s1) : 0 ≤ lstsqCutoff rcond m n eps mach s1 := by
+  cases rcond with
+  | none => rw [(lstsqCutoff_cases m n eps mach s1 0).1]; positivity
+  | some r =>
+    rcases lt_or_ge r 0 with h | h
+    · rw [(lstsqCutoff_cases m n eps mach s1 r).2.1 h]; positivity
+    · rw [(lstsqCutoff_cases m n eps mach s1 r).2.2 h]; positivity
+
+/-- the value returned by `lstsqForwardSvd` (the NaN assertion never fires in the model) -/
+theorem lstsqForwardSvd_ok (m n r : Nat) (U V : Nat → Nat → ℝ) (σ : Nat → ℝ) (rcond : Option ℝ) (eps mach : ℝ)
+    (b : Nat → ℝ) :
+    ∃ x, lstsqForwardSvd m n r U V σ rcond eps mach b = .ok x ∧
+      toVec n x.get = (toMat n r V * diagonal (svInv (toVec r σ) (lstsqCutoff rcond m n eps mach (σ 0)))
+        * (toMat m r U)ᵀ) *ᵥ toVec m b := by
+  refine ⟨_, rfl, ?_⟩
+  have h : ∀ f : Nat → ℝ, toVec n (tab n f).get = toVec n f := by
+    intro f; funext i; simp [toVec, tab_get, i.isLt]
+  rw [h, toVec_pinvForward, toMat_pinvOfSvd]
+
 end PP.LinSolve
